@@ -177,6 +177,11 @@ def _t_forname(line, arg=None):
     return re.sub(r'^(\s*)for _ in ', r'\1for verif_it in ', line)
 
 
+def _t_forit(line, arg=None):
+    """`for x in E {` -> `for x in verif_it: E {` (names the ghost iterator so that invariants can use verif_it.index)"""
+    return re.sub(r'^(\s*)for (\w+) in (?!verif_it: )', r'\1for \2 in verif_it: ', line)
+
+
 def _t_sort(line, arg=None):
     """`v.sort();` -> `ol_sort(&mut v);` (outlined slice sort with its assumed contract)"""
     return re.sub(r'^(\s*)(\w+)\.sort\(\);\s*$', r'\1ol_sort(&mut \2);', line)
@@ -196,7 +201,7 @@ def _t_r7(line, arg=None):
     return '%slet verif_%s = [%s]; for verif_i_%s in 0..verif_%s.len()' % (ind, x, lst, x, x)
 
 
-TRANSFORMERS = [('Rfor', _t_forname), ('R8', _t_r8), ('Rsort', _t_sort), ('R7', _t_r7), ('R1', _t_r1), ('R1u', _t_unsafe), ('ret', _t_ret), ('brace', _t_brace)]
+TRANSFORMERS = [('Rit', _t_forit), ('Rfor', _t_forname), ('R8', _t_r8), ('Rsort', _t_sort), ('R7', _t_r7), ('R1', _t_r1), ('R1u', _t_unsafe), ('ret', _t_ret), ('brace', _t_brace)]
 
 
 def infer_transform(pinned_line, ann_line):
@@ -232,6 +237,7 @@ def key(line):
     s = line.strip()
     if s == '{':
         return '<<brace>>'
+    s = re.sub(r'^for (\w+) in verif_it: ', r'for \1 in ', s)
     s = re.sub(r'^for verif_it in ', 'for _ in ', s)
     m8 = re.match(r'^let verif_t = (.*); (\w+) = verif_t\.0; (\w+) = verif_t\.1;$', s)
     if m8:
